@@ -288,6 +288,8 @@ GROWERS = [
     'http://h:00000080/', 'http://h:0000008080', 'http://H\u00e9/', 'http://\u3300.\u3300/', 'http://\uff21\uff21/', 'http://\u00df/',
     'x', '?"""', '#\x01\x02', '/{}', '//h2?"', '..', './"', '\\\\h3\\"', 'C|/"', '', '  x  ', 'blob:"x"', 'a:"#"', 'a: ?x', 'a:  #x',
     'http://h/\u00e9\u00e9\u00e9', 'http://h/?\u00e9', 'http://h/#\U0001F600', 'ftp://h/a/./b/../c', 'http://h/%7e%7E', 'wss://h:443/x',
+    # a query AND a fragment that grows (the fragment is appended after the query exit of the parser)
+    'foo://host/p?k=v#<<<<', 'http://h/p?q#"""', 'a:/p?q#  x', '?k=v#<<<', 'a:op?q#"<>', 'http://h?#`', 'ws://h/?a b#c d', '//h2/p?q#\u00e9', 'a://h?q#\x01',
 ]
 
 
